@@ -5,10 +5,12 @@ M: MC_Tokens - on every text up to 4 code points (9 classes) the token sequences
    HTML rendering); a byte-granular n-gram cutter (negative configuration) must fail.
 R: Gen_Tokens - TLC enumerates every text up to 3 (quick) / 4 (thorough) code points over 15
    code-point classes (1..4-byte, a combining mark, upper-case letters whose lower case changes the
-   byte length, blanks in and outside ASCII, NUL, HTML-special characters) and the harness runs 34
+   byte length, blanks in and outside ASCII, NUL, HTML-special characters) and the harness runs 40
    analyzer chains on each: raw, white-space, simple, n-gram (min/max/prefix-only), facet
    tokenizers with lower-caser, ASCII folding, remove-long, alphanumeric-only, stop-word filters
-   (exact token sequences) and stemmer, compound splitter, regex tokenizer (offset invariants);
+   (exact token sequences), the regex tokenizer with nullable patterns \\w* [a-z]* [0-9]+| x* (exact: the
+   maximal class run at the start of the text, the stream ends at the first empty match) and stemmer,
+   compound splitter, non-nullable regex tokenizer (offset invariants);
    chains 23.. put the compound splitter (and stemmer, alphanumeric-only, stop words, remove-long)
    BEHIND the filters that change the byte length of a token (lower-caser, ASCII folding) and
    behind a stemmer, and filters behind the splitter;
@@ -251,7 +253,8 @@ def run(ctx):
                        "snippet with at least one highlighted range")
     ctx.assumptions += ["TLC and the Json community module are trusted",
                         "code-point classes (alphanumeric, ASCII white space, lower case, ASCII folding) are specified for the code points of the check's alphabet",
-                        "token texts of the stemmer, the compound splitter and the regex tokenizer are not specified (offset / position invariants only)",
+                        "token texts of the stemmer, the compound splitter and the regex tokenizer with a non-nullable pattern are not specified (offset / position invariants only)",
+                        "regex tokenizer with a nullable pattern: as the unchanged code does (and documents: empty tokens are not emitted) the stream ends at the first empty match",
                         "the facet tokenizer does not set offsets (0, 0): its token texts are specified, the slice clause does not apply to it",
                         "highlighted() may overlap for overlapping tokenizers (n-grams): sortedness is demanded of it, disjointness of collapse_overlapped_ranges",
                         "the snippet generator looks a token up by its lower-cased text (token.text.to_lowercase()): a highlighted range owes a token whose lower-cased text is a term",
